@@ -23,6 +23,7 @@ PBUILD_STATE = {"lhs_matrix", "rhs_matrix", "removed_columns", "mapping_order", 
 
 def run(ctx):
     repo = ctx.repo
+    rules.borrow(ctx, "C16", funcs=["forsys.fmatrix.ForceMatrix.get_solution_no_discarded", "forsys.fmatrix.ForceMatrix.get_angle_limited_edges", "forsys.fmatrix.ForceMatrix.get_new_initial_condition"], minimum=10, because="value i of the reported list belongs to interface i also when interfaces are excluded")
 
     # ------------------------------------------------------------------ write-back in ForceMatrix.solve
     f = repo.func(f"{FM}.solve")
@@ -93,16 +94,18 @@ def run(ctx):
     # ------------------------------------------------------------------ stale tensions (F12)
     ctx.clause("interfaces excluded by an angle limit do not keep the tension of an earlier solve")
     good = False
-    first_wb = min(e.node.lineno for e in wb)
+    # program order = order of the events in the summary (line numbers would compare positions inside an inlined helper)
+    order = {id(e): i for i, e in enumerate(s.events)}
+    first_wb = min(order.get(id(e), 10 ** 9) for e in wb)
     for e in resets:
         lp = e.loops()
         if e.conds():
             continue
         if len(lp) == 2 and lp[0][2] == T.attr(FRAME, "internal_big_edges") and lp[1][2] == T.attr(("bv", lp[0][1]), "edges") \
-                and e.target == T.attr(T.idx(T.attr(FRAME, "edges"), ("bv", lp[1][1])), "tension") and e.node.lineno < first_wb:
+                and e.target == T.attr(T.idx(T.attr(FRAME, "edges"), ("bv", lp[1][1])), "tension") and order.get(id(e), 10 ** 9) < first_wb:
             good = True
         if len(lp) == 1 and lp[0][2] == T.call(("m", "values"), (T.attr(FRAME, "edges"),)) and e.target == T.attr(("bv", lp[0][1]), "tension") \
-                and e.node.lineno < first_wb:
+                and order.get(id(e), 10 ** 9) < first_wb:
             good = True
     ctx.check(good, "STATE", f"{f.qualname} / STATE / every internal interface's edges are reset before the write-back", ctx.where(f),
               "tension := 0 on all mesh edges of frame.internal_big_edges before solution values are written",
